@@ -45,6 +45,16 @@ struct Stats {
     vsock_created: AtomicU64,
     vsock_dropped: AtomicU64,
     polls: AtomicU64,
+    /// snapshots (taken under the TX locks) in which a writer is registered as waiting for space
+    /// although the ring has room, for connections whose ring cannot grow
+    waiting_writer_with_room: AtomicU64,
+    lost_wakeups: AtomicU64,
+    spin_pending_polls: AtomicU64,
+    spin_room_after_full: AtomicU64,
+    spin_wakeups_confirmed: AtomicU64,
+    spin_empty_polls: AtomicU64,
+    spin_data_after_empty: AtomicU64,
+    tx_snapshots_checked: AtomicU64,
     threads_seen: parking_lot::Mutex<std::collections::BTreeSet<String>>,
     first_problem: parking_lot::Mutex<Option<String>>,
 }
@@ -65,14 +75,193 @@ fn make_socket(net: &Arc<Net>, clock: &Arc<Clock>, addr: SocketAddr, cfg: &SockC
     librqbit_utp::UtpSocket::new_with_opts(transport, env, cfg.to_opts(tokio_util::sync::CancellationToken::new())).expect("socket")
 }
 
-async fn run_side(mut r: librqbit_utp::UtpStreamReadHalf, mut w: librqbit_utp::UtpStreamWriteHalf, seed: u64, conn: u32, side: u8, total: [usize; 2], chunk: usize, rbuf: usize, stats: Arc<Stats>) -> bool {
+struct Flag(AtomicBool);
+impl std::task::Wake for Flag {
+    fn wake(self: Arc<Self>) {
+        self.0.store(true, Ordering::SeqCst);
+    }
+    fn wake_by_ref(self: &Arc<Self>) {
+        self.0.store(true, Ordering::SeqCst);
+    }
+}
+
+/// A writer that polls the write half in a loop from its own OS thread, each time with a fresh
+/// waker (spurious polls are allowed by the Future contract). Oracle: when a poll stores bytes
+/// after an earlier poll found the ring full, the waker that earlier poll registered must be woken
+/// (the connection task frees space and takes the waker under one lock, then wakes it): a waker that
+/// is still silent two seconds after room was seen is a lost wake-up - a writer that had parked on
+/// it would sleep next to free space. Only used with rings that cannot grow.
+fn spin_writer(mut w: librqbit_utp::UtpStreamWriteHalf, wkey: u64, want_w: usize, chunk: usize, conn: u32, side: u8, st: Arc<Stats>) -> (librqbit_utp::UtpStreamWriteHalf, bool) {
+    use std::{pin::Pin, task::{Context, Poll, Waker}};
+    use tokio::io::AsyncWrite;
+    let mut off = 0usize;
+    let mut buf = vec![0u8; chunk];
+    let mut registered: Option<Arc<Flag>> = None;
+    let mut unconfirmed: Vec<(Arc<Flag>, std::time::Instant)> = Vec::new();
+    let mut spins = 0u64;
+    let mut ok = true;
+    'outer: while off < want_w {
+        let n = chunk.min(want_w - off);
+        gen_fill(wkey, off as u64, &mut buf[..n]);
+        let mut done = 0usize;
+        while done < n {
+            let f = Arc::new(Flag(AtomicBool::new(false)));
+            let waker = Waker::from(f.clone());
+            let mut cx = Context::from_waker(&waker);
+            match Pin::new(&mut w).poll_write(&mut cx, &buf[done..n]) {
+                Poll::Ready(Ok(0)) => {
+                    st.errors.fetch_add(1, Ordering::Relaxed);
+                    st.problem(format!("conn {conn} side {side}: write returned 0"));
+                    ok = false;
+                    break 'outer;
+                }
+                Poll::Ready(Ok(k)) => {
+                    done += k;
+                    st.bytes_written.fetch_add(k as u64, Ordering::Relaxed);
+                    st.writes.fetch_add(1, Ordering::Relaxed);
+                    if let Some(prev) = registered.take() {
+                        st.spin_room_after_full.fetch_add(1, Ordering::Relaxed);
+                        if !prev.0.load(Ordering::SeqCst) {
+                            unconfirmed.push((prev, std::time::Instant::now()));
+                        }
+                    }
+                }
+                Poll::Ready(Err(e)) => {
+                    st.errors.fetch_add(1, Ordering::Relaxed);
+                    st.problem(format!("conn {conn} side {side}: write failed after {} of {want_w}: {e}", off + done));
+                    ok = false;
+                    break 'outer;
+                }
+                Poll::Pending => {
+                    st.spin_pending_polls.fetch_add(1, Ordering::Relaxed);
+                    // the library either registered `f` (ring full) or woke it at once (its
+                    // cooperative yield); both are covered by "must have been woken when room shows"
+                    registered = Some(f);
+                    spins += 1;
+                    // a varying short pause, so that the connection task gets at the lock and the
+                    // polls land at varying phases of its work
+                    if spins % 64 == 0 {
+                        std::thread::yield_now();
+                    } else {
+                        for _ in 0..(spins.wrapping_mul(0x9E37_79B9) >> 7) % 300 {
+                            std::hint::spin_loop();
+                        }
+                    }
+                }
+            }
+            unconfirmed.retain(|(f, since)| {
+                if f.0.load(Ordering::SeqCst) {
+                    st.spin_wakeups_confirmed.fetch_add(1, Ordering::Relaxed);
+                    return false;
+                }
+                if since.elapsed() > Duration::from_secs(2) {
+                    if st.lost_wakeups.fetch_add(1, Ordering::Relaxed) == 0 {
+                        st.problem(format!(
+                            "lost wake-up: conn {conn} side {side}: the ring was full, the writer's waker was registered, room appeared, and the waker was not woken within 2 s"
+                        ));
+                    }
+                    return false;
+                }
+                true
+            });
+        }
+        off += n;
+    }
+    // settle what is left
+    let t = std::time::Instant::now();
+    while !unconfirmed.is_empty() && t.elapsed() < Duration::from_secs(3) {
+        unconfirmed.retain(|(f, since)| {
+            if f.0.load(Ordering::SeqCst) {
+                st.spin_wakeups_confirmed.fetch_add(1, Ordering::Relaxed);
+                return false;
+            }
+            if since.elapsed() > Duration::from_secs(2) {
+                if st.lost_wakeups.fetch_add(1, Ordering::Relaxed) == 0 {
+                    st.problem(format!("lost wake-up: conn {conn} side {side}: a waker registered on a full ring was not woken within 2 s after room appeared"));
+                }
+                return false;
+            }
+            true
+        });
+        std::thread::sleep(Duration::from_millis(10));
+    }
+    (w, ok)
+}
+
+/// The reading twin of `spin_writer`, as a stress only: polls the read half in a loop with fresh
+/// wakers from its own OS thread (content oracle on every byte). No wake-up oracle here: a read
+/// that returns bytes re-registers its own waker when it drains the queue, so an earlier waker may
+/// legitimately stay silent.
+fn spin_reader(mut r: librqbit_utp::UtpStreamReadHalf, rkey: u64, want_r: usize, rbuf: usize, conn: u32, side: u8, st: Arc<Stats>) -> (librqbit_utp::UtpStreamReadHalf, bool) {
+    use std::{pin::Pin, task::{Context, Poll, Waker}};
+    use tokio::io::{AsyncRead, ReadBuf};
+    let mut got = 0usize;
+    let mut buf = vec![0u8; rbuf];
+    let mut spins = 0u64;
+    let mut ok = true;
+    let mut was_empty = false;
+    while got < want_r {
+        let f = Arc::new(Flag(AtomicBool::new(false)));
+        let waker = Waker::from(f.clone());
+        let mut cx = Context::from_waker(&waker);
+        let mut rb = ReadBuf::new(&mut buf);
+        match Pin::new(&mut r).poll_read(&mut cx, &mut rb) {
+            Poll::Ready(Ok(())) => {
+                let n = rb.filled().len();
+                if n == 0 {
+                    st.errors.fetch_add(1, Ordering::Relaxed);
+                    st.problem(format!("conn {conn} side {side}: EOF after {got} of {want_r}"));
+                    ok = false;
+                    break;
+                }
+                if let Some((o, want, have)) = gen_check(rkey, got as u64, rb.filled()) {
+                    st.mismatches.fetch_add(1, Ordering::Relaxed);
+                    st.problem(format!("conn {conn} side {side}: content mismatch at offset {o}: want {want} got {have}"));
+                    ok = false;
+                    break;
+                }
+                got += n;
+                st.bytes_read.fetch_add(n as u64, Ordering::Relaxed);
+                st.reads.fetch_add(1, Ordering::Relaxed);
+                if was_empty {
+                    st.spin_data_after_empty.fetch_add(1, Ordering::Relaxed);
+                    was_empty = false;
+                }
+            }
+            Poll::Ready(Err(e)) => {
+                st.errors.fetch_add(1, Ordering::Relaxed);
+                st.problem(format!("conn {conn} side {side}: read failed after {got} of {want_r}: {e}"));
+                ok = false;
+                break;
+            }
+            Poll::Pending => {
+                st.spin_empty_polls.fetch_add(1, Ordering::Relaxed);
+                was_empty = true;
+                spins += 1;
+                if spins % 64 == 0 {
+                    std::thread::yield_now();
+                } else {
+                    for _ in 0..(spins.wrapping_mul(0x9E37_79B9) >> 7) % 300 {
+                        std::hint::spin_loop();
+                    }
+                }
+            }
+        }
+    }
+    (r, ok)
+}
+
+async fn run_side(mut r: librqbit_utp::UtpStreamReadHalf, mut w: librqbit_utp::UtpStreamWriteHalf, seed: u64, conn: u32, side: u8, total: [usize; 2], chunk: usize, rbuf: usize, stats: Arc<Stats>, spin: bool, spin_read: bool) -> bool {
     let wkey = stream_key(seed, conn, side);
     let rkey = stream_key(seed, conn, 1 - side);
     let want_w = total[side as usize];
     let want_r = total[1 - side as usize];
     let st = stats.clone();
     // writer and reader are separate tasks: they run on other worker threads than the connection task
-    let wt = tokio::spawn(async move {
+    let st_spin = stats.clone();
+    let wt = if spin {
+        tokio::task::spawn_blocking(move || spin_writer(w, wkey, want_w, chunk, conn, side, st_spin))
+    } else { tokio::spawn(async move {
         let mut off = 0usize;
         let mut buf = vec![0u8; chunk];
         while off < want_w {
@@ -92,9 +281,12 @@ async fn run_side(mut r: librqbit_utp::UtpStreamReadHalf, mut w: librqbit_utp::U
             }
         }
         (w, true)
-    });
+    }) };
     let st = stats.clone();
-    let rt = tokio::spawn(async move {
+    let st_spin = stats.clone();
+    let rt = if spin_read {
+        tokio::task::spawn_blocking(move || spin_reader(r, rkey, want_r, rbuf, conn, side, st_spin))
+    } else { tokio::spawn(async move {
         let mut got = 0usize;
         let mut buf = vec![0u8; rbuf];
         st.threads_seen.lock().insert(format!("{:?}", std::thread::current().id()));
@@ -123,7 +315,7 @@ async fn run_side(mut r: librqbit_utp::UtpStreamReadHalf, mut w: librqbit_utp::U
             }
         }
         (r, true)
-    });
+    }) };
     let (wr, rr) = tokio::join!(wt, rt);
     let ok = matches!((&wr, &rr), (Ok((_, true)), Ok((_, true))));
     if wr.is_err() || rr.is_err() {
@@ -140,6 +332,11 @@ fn main() -> std::process::ExitCode {
     let conns = arg(&args, "--conns", 6) as usize;
     let bytes = arg(&args, "--bytes", 300_000) as usize;
     let rounds = arg(&args, "--rounds", 2) as usize;
+    // 0 = mixed buffers; 1 = growth: tiny initial TX ring allowed to grow to 1 MiB, small writes, fast
+    // readers (every growth step copies the ring while the writer, on another thread, keeps pushing);
+    // 2 = tiny: TX ring of a few hundred bytes that cannot grow, writes of a few bytes (the writer
+    // blocks on a full ring after nearly every ACK and depends on the connection task to wake it)
+    let profile = arg(&args, "--profile", 0);
     let out = args.iter().position(|a| a == "--out").and_then(|i| args.get(i + 1).cloned());
     let stats = Arc::new(Stats::default());
     let panicked = Arc::new(AtomicBool::new(false));
@@ -153,6 +350,9 @@ fn main() -> std::process::ExitCode {
             prev(info);
         }));
     }
+    let check_waiting = profile == 2;
+    // (profile 3 polls with fresh wakers all the time: a registered waker next to free space is then
+    // the harness' doing between two of its polls, the snapshot rule does not apply)
     {
         let st = stats.clone();
         librqbit_utp::verif::set_global_sink(Some(Box::new(move |ev| {
@@ -164,8 +364,24 @@ fn main() -> std::process::ExitCode {
                 V::VsockDropped { .. } => {
                     st.vsock_dropped.fetch_add(1, Ordering::Relaxed);
                 }
-                V::PollEnd { .. } => {
+                V::PollEnd { id, snap, .. } => {
                     st.polls.fetch_add(1, Ordering::Relaxed);
+                    // Writers here only ever wait for space (no flush / shutdown calls). The writer
+                    // registers its waker under the lock when a push stored nothing, the connection
+                    // task frees space and takes the waker under the same lock: a snapshot (same
+                    // lock) must never show a registered writer next to free space. (Growing rings
+                    // are left out: growth adds room without waking.)
+                    if check_waiting {
+                        st.tx_snapshots_checked.fetch_add(1, Ordering::Relaxed);
+                        if snap.tx.writer_waker_set && snap.tx.ring_len < snap.tx.ring_capacity && !snap.tx.vsock_closed {
+                            if st.waiting_writer_with_room.fetch_add(1, Ordering::Relaxed) == 0 {
+                                st.problem(format!(
+                                    "lost wake-up: writer of {}->{} registered as waiting for space with {} of {} ring bytes used (state {})",
+                                    id.local, id.remote, snap.tx.ring_len, snap.tx.ring_capacity, snap.state
+                                ));
+                            }
+                        }
+                    }
                 }
                 _ => {}
             }
@@ -230,6 +446,22 @@ fn main() -> std::process::ExitCode {
             cb.tx_buf_max = Some(cb.tx_buf_initial.unwrap() * *rng.pick(&[1usize, 4]));
             ca.disable_nagle = rng.chance(0.5);
             cb.disable_nagle = rng.chance(0.5);
+            match profile {
+                1 => {
+                    for c in [&mut ca, &mut cb] {
+                        c.tx_buf_initial = Some(*rng.pick(&[128usize, 600, 2048, 8192]));
+                        c.tx_buf_max = Some(1 << 20);
+                    }
+                }
+                2 | 3 => {
+                    for c in [&mut ca, &mut cb] {
+                        c.tx_buf_initial = Some(*rng.pick(&[200usize, 600, 1500]));
+                        c.tx_buf_max = c.tx_buf_initial;
+                        c.disable_nagle = true;
+                    }
+                }
+                _ => {}
+            }
             // No path-MTU probing: with the real clock on a loaded machine retransmission timers fire
             // spuriously, and a probe that "timed out" after it was delivered is re-cut (known C01
             // finding); that defect is judged in the simulated runs, here it would only mask races.
@@ -250,6 +482,11 @@ fn main() -> std::process::ExitCode {
                     let chunk = if total[0] + total[1] > 50_000 { chunk.max(17) } else { chunk };
                     let rbuf = *rng.pick(&[3usize, 500, 65536]);
                     let rbuf = if total[0] + total[1] > 50_000 { rbuf.max(500) } else { rbuf };
+                    let (total, chunk, rbuf) = match profile {
+                        1 => ([rng.range(bytes as u64 / 2, bytes as u64) as usize, rng.range(bytes as u64 / 2, bytes as u64) as usize], *rng.pick(&[5usize, 17, 64, 300]), 65536),
+                        2 | 3 => ([rng.range(bytes as u64 / 2, bytes as u64) as usize, rng.range(bytes as u64 / 2, bytes as u64) as usize], *rng.pick(&[1usize, 3, 17, 90]), 65536),
+                        _ => (total, chunk, rbuf),
+                    };
                     let delay = round as u64 * 50 + rng.below(30);
                     let (a2, b2, st2) = (a.clone(), b.clone(), st.clone());
                     let gate2 = gate.clone();
@@ -287,7 +524,7 @@ fn main() -> std::process::ExitCode {
                         let t1 = u64::from_le_bytes(hdr[8..16].try_into().unwrap()) as usize;
                         let ch = u32::from_le_bytes(hdr[16..20].try_into().unwrap()) as usize;
                         let rb = u32::from_le_bytes(hdr[20..24].try_into().unwrap()) as usize;
-                        let ok = run_side(r, w, seed, c, 1, [t0, t1], ch, rb, st3.clone()).await;
+                        let ok = run_side(r, w, seed, c, 1, [t0, t1], ch, rb, st3.clone(), false, profile == 3).await;
                         if ok {
                             st3.conns_done.fetch_add(1, Ordering::Relaxed);
                         }
@@ -315,7 +552,7 @@ fn main() -> std::process::ExitCode {
                             st2.problem("token write failed".into());
                             return;
                         }
-                        let ok = run_side(r, w, seed, conn, 0, total, chunk, rbuf, st2.clone()).await;
+                        let ok = run_side(r, w, seed, conn, 0, total, chunk, rbuf, st2.clone(), profile == 3, false).await;
                         if ok {
                             st2.conns_done.fetch_add(1, Ordering::Relaxed);
                         }
@@ -347,6 +584,8 @@ fn main() -> std::process::ExitCode {
         "panic"
     } else if mism > 0 {
         "content-mismatch"
+    } else if stats.waiting_writer_with_room.load(Ordering::Relaxed) > 0 || stats.lost_wakeups.load(Ordering::Relaxed) > 0 {
+        "lost-wakeup"
     } else if !all_joined {
         "stall"
     } else if errs > 0 || done != expect {
@@ -366,6 +605,7 @@ fn main() -> std::process::ExitCode {
         ("pairs", pairs.to_string()),
         ("conns_per_pair_per_round", conns.to_string()),
         ("rounds", rounds.to_string()),
+        ("profile", profile.to_string()),
         ("tasks", tasks.to_string()),
         ("connection_sides_expected", expect.to_string()),
         ("connection_sides_completed", done.to_string()),
@@ -378,6 +618,14 @@ fn main() -> std::process::ExitCode {
         ("connection_task_polls", stats.polls.load(Ordering::Relaxed).to_string()),
         ("worker_threads_seen_by_readers", stats.threads_seen.lock().len().to_string()),
         ("mismatches", mism.to_string()),
+        ("spin_polls_that_found_the_ring_full", stats.spin_pending_polls.load(Ordering::Relaxed).to_string()),
+        ("spin_room_after_full_events", stats.spin_room_after_full.load(Ordering::Relaxed).to_string()),
+        ("spin_wakeups_confirmed_late", stats.spin_wakeups_confirmed.load(Ordering::Relaxed).to_string()),
+        ("spin_read_polls_that_found_nothing", stats.spin_empty_polls.load(Ordering::Relaxed).to_string()),
+        ("spin_data_after_empty_events", stats.spin_data_after_empty.load(Ordering::Relaxed).to_string()),
+        ("lost_wakeups", stats.lost_wakeups.load(Ordering::Relaxed).to_string()),
+        ("tx_snapshots_checked_for_lost_wakeups", stats.tx_snapshots_checked.load(Ordering::Relaxed).to_string()),
+        ("snapshots_with_a_waiting_writer_next_to_free_space", stats.waiting_writer_with_room.load(Ordering::Relaxed).to_string()),
         ("errors", errs.to_string()),
         ("wall_s", format!("{wall:.1}")),
     ];
@@ -393,7 +641,7 @@ fn main() -> std::process::ExitCode {
     let _ = stats.polls.load(Ordering::Relaxed);
     match verdict {
         "held" => std::process::ExitCode::from(0),
-        "stall" | "incomplete" | "content-mismatch" | "panic" => std::process::ExitCode::from(1),
+        "stall" | "incomplete" | "content-mismatch" | "panic" | "lost-wakeup" => std::process::ExitCode::from(1),
         _ => std::process::ExitCode::from(2),
     }
 }
